@@ -5,6 +5,7 @@ import (
 	"math"
 	"strings"
 	"time"
+	"unicode/utf8"
 
 	"verif/internal/drive"
 	"verif/internal/gen"
@@ -111,6 +112,7 @@ func (c04) Plan(tier string, seed int64) []mon.Workload {
 		{Name: "tuple-assign", N: int64(len(c04TupleSetups) * len(c04TupleStmts)), Exhaustive: true},
 		{Name: "string-in", N: int64(len(c04InCases)), Exhaustive: true},
 		{Name: "map-literals", N: c04MapLitCount(), Exhaustive: true},
+		{Name: "long-slices", N: int64(len(c04LongLens) * 3 * 9), Exhaustive: true},
 	}
 }
 
@@ -375,6 +377,9 @@ func (k c04) Describe(c *mon.Ctx, workload string, i int64) any {
 	if workload == "map-literals" {
 		return map[string]any{"source": c04MapLitText(i), "interpreter": "v1 and v2"}
 	}
+	if workload == "long-slices" {
+		return map[string]any{"source_head": firstN(c04LongSliceText(i), 6), "interpreter": "v1 and v2"}
+	}
 	cs := k.build(c, workload, i)
 	return map[string]any{"source": gt.Print(gt.ParenthesizeStmts(cs.Stmts), nil)}
 }
@@ -478,6 +483,17 @@ func runV2Text(c *mon.Ctx, tag, text string) {
 func (k c04) Run(c *mon.Ctx, workload string, i int64) {
 	if workload == "tuple-assign" {
 		runV2Text(c, "tuple-assign", c04TupleText(i))
+		return
+	}
+	if workload == "long-slices" {
+		text := c04LongSliceText(i)
+		runV2Text(c, "long-slices", text)
+		st, err := gt.FromStmts(drive.Parse("long-slices", text).Stmts)
+		if err != nil {
+			panic(err)
+		}
+		st = gt.CloneStmts(st)
+		runV1Compare(c, progCase{Stmts: st, Src: gt.Print(st, nil), Points: []*ref.Point{ref.NewPoint("m", nil, map[string]any{"f1": int64(1)}, time.Unix(1700000000, 0))}}, "c04.p")
 		return
 	}
 	if workload == "map-literals" {
@@ -599,4 +615,58 @@ func c04MapLitText(i int64) string {
 		lit = "{" + entry(i/(e3*e3), c04MLKeys3, c04MLVals3, 1) + ", " + entry(i/e3%e3, c04MLKeys3, c04MLVals3, 2) + ", " + entry(i%e3, c04MLKeys3, c04MLVals3, 3) + "}"
 	}
 	return "k = \"a\"\nkb = \"b\"\nv = 5\nm = " + lit + "\np(m, len(m))\np(m[\"a\"])\nfor i = 0; i < 2; i = i + 1 {\n  n = " + lit + "\n  p(n)\n  n[\"a\"] = i\n  v = v + 1\n}\n"
+}
+
+// long-slices (exhaustive, v1 and v2): the slice cube again on LONG objects -
+// lists, ASCII strings and multi-byte strings of 7..1025 elements / bytes
+// (both sides of every power of two) - with bounds at the landmarks of each
+// length (omitted, 0, 1, -1, half, -half, len, -len, len+1) and steps
+// (omitted, 1, 2, -1, -2, len, -len). One program holds the 63 slices of one
+// start bound.
+var c04LongLens = []int{7, 8, 9, 15, 16, 17, 31, 32, 33, 63, 64, 65, 255, 256, 257, 1024, 1025}
+
+func c04LongSliceText(i int64) string {
+	si := int(i % 9)
+	i /= 9
+	kind := int(i % 3)
+	n := c04LongLens[int(i)/3]
+	var sb strings.Builder
+	switch kind {
+	case 0:
+		sb.WriteString("a = [")
+		for j := 0; j < n; j++ {
+			if j > 0 {
+				sb.WriteString(", ")
+			}
+			fmt.Fprint(&sb, j)
+		}
+		sb.WriteString("]\n")
+	case 1:
+		sb.WriteString("a = \"" + strings.Repeat("abcdefghij", n/10+1)[:n] + "\"\n")
+	case 2:
+		u := strings.Repeat("aé世😀b", n/11+1)
+		sb.WriteString("a = \"" + u[:n] + "\"\n")
+		if !utf8.ValidString(u[:n]) {
+			// the cut fell inside a character: spell the tail as escapes
+			sb.Reset()
+			k := n
+			for !utf8.ValidString(u[:k]) {
+				k--
+			}
+			sb.WriteString("a = \"" + u[:k])
+			for _, b := range []byte(u[k:n]) {
+				fmt.Fprintf(&sb, "\\x%02x", b)
+			}
+			sb.WriteString("\"\n")
+		}
+	}
+	marks := []string{"", "0", "1", "-1", fmt.Sprint(n / 2), fmt.Sprint(-(n / 2)), fmt.Sprint(n), fmt.Sprint(-n), fmt.Sprint(n + 1)}
+	steps := []string{"", ":1", ":2", ":-1", ":-2", ":" + fmt.Sprint(n), ":" + fmt.Sprint(-n)}
+	sb.WriteString("p(len(a))\n")
+	for _, e := range marks {
+		for _, st := range steps {
+			fmt.Fprintf(&sb, "p(a[%s:%s%s])\n", marks[si], e, st)
+		}
+	}
+	return sb.String()
 }
